@@ -556,10 +556,47 @@ func (m *Machine) runesToString(st *State, s *Slice) Value {
 	panic(unsupported("[]rune -> string"))
 }
 
+// splitValue models strings.Split(s, sep) as a deterministic function of its arguments:
+// a fresh array whose length and elements are uninterpreted functions of (s, sep).
+// Trusted facts: at least one part; every part is a canonical string.
+func (m *Machine) splitValue(st *State, s, sep *Str, elem types.Type) *Slice {
+	c := m.ctx
+	key := []*Term{s.Len, s.Arr, sep.Len, sep.Arr}
+	n := c.App("split.len", m.ts.Idx(), key...)
+	st.assume(c.And(m.idxLe(m.ts.IdxConst(1), n), m.idxLe(n, m.ts.NumConst(maxLen, m.ts.Idx()))))
+	i := c.Bound("sp", m.ts.Idx())
+	elen := c.Lambda(i, c.App("split.elen", m.ts.Idx(), append(append([]*Term{}, key...), i)...))
+	earr := c.Lambda(i, c.App("split.earr", ArrSort(m.ts.Idx(), m.ts.ByteSort()), append(append([]*Term{}, key...), i)...))
+	ref := m.AllocArray(st, elem, map[string]*Term{"len": elen, "arr": earr}, "strings.Split")
+	// element lengths are non-negative and parts are canonical
+	j := c.Bound("sj", m.ts.Idx())
+	k := c.Bound("sk", m.ts.Idx())
+	pl := c.App("split.elen", m.ts.Idx(), append(append([]*Term{}, key...), j)...)
+	pa := c.App("split.earr", ArrSort(m.ts.Idx(), m.ts.ByteSort()), append(append([]*Term{}, key...), j)...)
+	z := m.ts.IdxConst(0)
+	m.assumeOnce(st, c.Forall([]*Term{j}, c.And(m.idxLe(z, pl), m.idxLe(pl, s.Len))))
+	m.assumeOnce(st, c.Forall([]*Term{j, k}, c.Implies(c.Or(m.idxLt(k, z), m.idxLe(pl, k)), c.Eq(c.Select(pa, k), m.ts.zeroOf(m.ts.ByteSort())))))
+	return &Slice{Arr: ref, Off: z, Len: n, Cap: n, Elem: elem}
+}
+
 func (m *Machine) stringsSplit(st *State, args []Value) []Value {
-	panic(unsupported("strings.Split"))
+	m.trusted["strings.Split: deterministic function of its arguments; returns at least one part; no other property is assumed (levels are defined as its result)"] = true
+	return []Value{m.splitValue(st, args[0].(*Str), args[1].(*Str), types.Typ[types.String])}
+}
+
+// hasSub: strings.Contains(s, sub) for a one-byte constant sub: exists i < len(s): s[i] == sub[0].
+func (m *Machine) hasByteTerm(s *Str, b *Term) *Term {
+	c := m.ctx
+	i := c.Bound("hb", m.ts.Idx())
+	return c.Exists([]*Term{i}, c.And(m.inBounds(i, s.Len), c.Eq(c.Select(s.Arr, i), b)))
 }
 
 func (m *Machine) stringsContains(st *State, args []Value) []Value {
-	panic(unsupported("strings.Contains"))
+	s, sub := args[0].(*Str), args[1].(*Str)
+	if !sub.Len.IsNum() || sub.Len.num.Int64() != 1 {
+		panic(unsupported("strings.Contains with a non-constant or multi-byte pattern"))
+	}
+	m.trusted["strings.Contains(s, c) for a one-byte c: true iff some index i < len(s) has s[i] == c"] = true
+	b := m.ctx.Select(sub.Arr, m.ts.IdxConst(0))
+	return []Value{m.hasByteTerm(s, b)}
 }
